@@ -5,7 +5,7 @@ from model import (dstr, strip, fact_holds, mentions_field, mentions_call, menti
 from rules import (guarded, calls_to, field_writes, who_may_write, full_range, loops_over,
                    every_iteration_passes, basename, origins, is_var, is_enum, lastname,
                    dominated_by, reject_if, must_pass, deep_resolve, skip_conditions_exact,
-                   header_iff_empty)
+                   header_iff_empty, linear)
 from bounds import bounds, upper_by_fact, INF
 
 
@@ -188,9 +188,14 @@ def run(ctx):
         # words 2,3: low then high
         ctx.check('C09.TA1', '4294967295' in vals[2] and '>> 32' not in vals[2] and '>> 32' in vals[3], rd.name, 'writer:mtime-halves',
                   rd.where(fw[2]), 'mtime is written low half first, then high half: %s | %s' % (vals[2][:50], vals[3][:50]))
-        mt = [e for e in load.events('asg') if is_var('mtime')(e['l'])]
-        s = dstr(mt[0].get('r')).replace(' ', '') if mt else ''
-        ctx.check('C09.TA1', 'deps_data[2]<<32' in s and 'deps_data[1]' in s and 'deps_data[1]<<' not in s, load.name, 'reader:mtime-halves',
+        mt = [e for e in load.stores() if is_var('mtime')(e['l']) and mentions_var(deep_resolve(load, e.get('r')), 'deps_data')]
+        rr = deep_resolve(load, deep_resolve(load, mt[0].get('r'))) if mt else None
+        s = dstr(rr).replace(' ', '') if mt else ''
+        hi2 = any(x.get('k') == 'bin' and x['op'] == '<<' and const_value(x['r']) == 32 and dstr(strip(x['l'])).replace(' ', '') == 'deps_data[2]'
+                  for x in walk(rr)) if mt else False
+        lo_shifted = any(x.get('k') == 'bin' and x['op'] == '<<' and dstr(strip(x['l'])).replace(' ', '') == 'deps_data[1]' for x in walk(rr)) if mt else True
+        lo1 = any(dstr(strip(x)).replace(' ', '') == 'deps_data[1]' for x in walk(rr) if isinstance(x, dict)) if mt else False
+        ctx.check('C09.TA1', hi2 and lo1 and not lo_shifted, load.name, 'reader:mtime-halves',
                   load.loc, 'the reader combines word 2 as high half and word 1 as low half: %s' % s[:90])
         # header word count: writer 4 * (1 + 2 + n) ; reader size/4 - 3
         sz = rd.single_def('size') or [e.get('init') for e in rd.events('decl') if e['n'] == 'size'][0]
@@ -294,7 +299,17 @@ def run(ctx):
     for bid, b in rd.blocks.items():
         ef0 = rd.edge_fact(bid, 0) if b['succ'] else None
         if ef0 and 'DepsLog::Deps::nodes[' in ef0[0] and 'nodes[' in ef0[0].split('==')[-1]:
-            cmp_loop = True
+            # the comparison sits in a loop that makes node_count trips from 0 (no other bound)
+            for hb, blk in rd.blocks.items():
+                t = blk.get('term')
+                if t and t['kind'] in ('for', 'while') and len(blk['succ']) == 2 and bid in rd.reachable_from(blk['succ'][0]) | {blk['succ'][0]} and \
+                        hb in rd.reachable_from(bid):
+                    c = strip(t.get('cond'))
+                    if isinstance(c, dict) and c.get('k') == 'bin' and c['op'] in ('<', '!=') and strip(c['l']).get('k') == 'var':
+                        lv = strip(c['l'])['n']
+                        inits = [x.get('init') for x in rd.events('decl') if x['n'] == lv and x.get('init') is not None]
+                        if len(inits) == 1 and linear(rd, {'k': 'bin', 'op': '-', 'l': c['r'], 'r': inits[0]}) == {'node_count': 1}:
+                            cmp_loop = True
     mc = [e for f in (rd,) for e in f.calls() if e.get('name') in ('memcmp', 'memcpy', 'memmove')]
     for e in mc:
         a0 = strip(e['args'][0])
@@ -417,11 +432,11 @@ def rule_tb1(ctx, RID):
             si = strip(idx)
             if isinstance(si, dict) and si.get('k') == 'idx':
                 # re-read of a buffer word validated by a preceding loop over the same range
-                key = dstr(si).replace('#2', '')
+                import re as _re
+                norm = lambda t: _re.sub(r'[#@]\d+', '', t)
+                key = norm(dstr(si))
                 validated = [x for x in load.events('decl') if x.get('init') is not None and
-                             dstr(strip(x['init'])).replace('#2', '') == key and load.ev_reaches(x, e)]
-                wr = [x for x in load.calls('fread') if any(load.ev_reaches(v, x) and load.ev_reaches(x, e) and
-                                                            x['_b'] not in (61, ) for v in validated)]
+                             norm(dstr(strip(x['init']))) == key and load.ev_reaches(x, e)]
                 ok = bool(validated)
                 vname = validated[0]['n'] if validated else None
                 # the validating loop checks both bounds of that variable
@@ -432,8 +447,31 @@ def rule_tb1(ctx, RID):
                                 mentions_var(x.get('args'), vname):
                             lo, hi = bounds(load, x, x['args'][0])
                             ok2 = lo >= 0 and upper_by_fact(load, x, x['args'][0], nodes_size)
-                # and a failed validation prevents reaching here
-                guard = fact_holds(load.facts_at(e), is_var('read_failed'), False)
+                # and a failed validation prevents reaching here: no path from an edge on which the
+                # validated word is out of range (or names no node) leads to this subscript
+                guard = bool(vname)
+                nfail = 0
+                if vname:
+                    for bb, blk in load.blocks.items():
+                        for i2, s2 in enumerate(blk['succ']):
+                            if s2 is None:
+                                continue
+                            for fk, pol, atom in load.edge_facts(bb, i2):
+                                a = strip(atom)
+                                bad = False
+                                if isinstance(a, dict) and a.get('k') == 'bin' and a['op'] == '<' and mentions_var(a, vname):
+                                    if is_var(vname)(a['l']) and const_value(a['r']) == 0 and pol is True:
+                                        bad = True              # id < 0
+                                    if is_var(vname)(a['l']) and nodes_size(a['r']) and pol is False:
+                                        bad = True              # !(id < nodes_.size())
+                                if isinstance(a, dict) and a.get('k') == 'call' and a.get('op') == '[]' and \
+                                        mentions_field(a.get('recv'), 'DepsLog::nodes_') and mentions_var(a.get('args'), vname) and pol is False:
+                                    bad = True                  # !nodes_[id]
+                                if bad:
+                                    nfail += 1
+                                    if load.find_path(None, lambda x: x is e, from_succ=s2, init_facts=[(fk, pol)]) is not None:
+                                        guard = False
+                    guard = guard and nfail >= 3
                 ctx.check(RID, ok and ok2 and guard, load.name, 'nodes_[]:revalidation:%s' % key, load.where(e),
                           'nodes_[%s] re-reads a word that a preceding loop validated (0 <= id < nodes_.size()) '
                           'and is reached only when that validation did not fail' % key)
